@@ -355,6 +355,14 @@ def gt_any(z, t):
     return Or(z.real > t, -z.real > t, z.imag > t, -z.imag > t)
 
 
+def thr(atol, rtol, mag):
+    """atol + rtol*mag ; exact rational arithmetic on the binary values of the tolerances while symbolic (as the allclose model does)"""
+    from symnp import core
+    if core._CTX:
+        return lift(atol) + lift(rtol) * lift(mag)
+    return atol + rtol * mag
+
+
 def num0(x):
     return isinstance(x, (int, float)) and x == 0
 
@@ -368,7 +376,7 @@ def band(pairs, rtol=RTOL, atol=ATOL):
         for a, b in zip(L.flat, R.flat):
             d = a - b
             ins.append(l1(d) <= atol)
-            outs.append(gt_any(d, atol + rtol * l1(a)) & gt_any(d, atol + rtol * l1(b)))
+            outs.append(gt_any(d, thr(atol, rtol, l1(a))) & gt_any(d, thr(atol, rtol, l1(b))))
     return And(*ins), Or(*outs)
 
 
@@ -889,7 +897,9 @@ def ob_diag_dominant(shape, kind, strict):
                     off = off + abs(A[r, c])
             cs.append(abs(A[r, r]) > off if strict in (True, None) else abs(A[r, r]) >= off)
         return And(*cs)
-    return Obligation("is_diagonally_dominant.iff_row_dominance", cfg, build, call, oracle, post=bool_post, neg=bool_neg, max_paths=64)
+    # complex: |a| of CONSTANT complex a is a valueless sqrt symbol in "lra", so translator validation may fork the wrong way
+    return Obligation("is_diagonally_dominant.iff_row_dominance", cfg, build, call, oracle, post=bool_post, neg=bool_neg, max_paths=64,
+                      tv=kind != "c")
 
 
 def ob_entrywise(pred, shape, mat_type=None):
@@ -1227,7 +1237,8 @@ def ob_mub(m, d, kind, form, ket=False, extra=0):
             "exact_qubit_xyz": "exact_by_construction_true", "not_orthonormal_by_margin": "bases_not_orthonormal_by_margin_false",
             "not_a_basis_family": "first_basis_repeats_a_vector_false", "count": "vector_count_not_multiple_of_dim_false"}[form]
     return Obligation("is_mutually_unbiased_basis." + name, cfg, build, call, oracle, post=band_post, neg=band_neg, assume=pre,
-                      valid=mk_valid(pre), max_paths=128, neg_control=not extra)
+                      valid=mk_valid(pre), max_paths=128, neg_control=not extra, mode="nra" if form == "exact_qubit_xyz" else "lra",
+                      tv=form != "exact_qubit_xyz")
 
 
 # ----------------------------------------------------------------------------------------------
@@ -1307,6 +1318,584 @@ def ob_stochastic_transpose(n):
         return And(*[sb(r) for r in res])
     return Obligation("is_stochastic.left_of_A_is_right_of_transpose", cfg, build, call, lambda i: [True], post=post, neg_control=False,
                       tv=False, max_paths=4 ** (n * n + 2))
+
+
+
+# ----------------------------------------------------------------------------------------------
+# kernel based predicates: verdict = stated function of the kernel applied to the documented argument
+# ----------------------------------------------------------------------------------------------
+def eigvalsh_(A):
+    a = tq(A)
+    return list(np.linalg.eigvalsh(a))
+
+
+def eigvals_(A):
+    a = tq(A)
+    return list(np.linalg.eig(a)[0])
+
+
+def rank_(M):
+    return np.linalg.matrix_rank(tq(M))
+
+
+def psd_band(A, rtol=RTOL, atol=ATOL):
+    """Hermitian (band) with spectrum >= 0 => True ; not Hermitian (band) or an eigenvalue < -atol => False.
+    Spectrum = the eigvalsh kernel of A itself (LAPACK reads the lower triangle)."""
+    if not sq(A):
+        return (False, True)
+    hi, ho = band(d_hermitian(A), rtol, atol)
+    w = eigvalsh_(A)
+    return And(hi, *[x >= 0 for x in w]), Or(ho, *[x < -abs(atol) for x in w])
+
+
+def ob_psd(shape, kind, tol=None):
+    cfg = {"shape": list(shape), "entries": kind, "rtol": tol[0] if tol else RTOL, "atol": tol[1] if tol else ATOL}
+    kw = {"rtol": tol[0], "atol": tol[1]} if tol else {}
+
+    def build(b):
+        return {"A": b.array("A", shape, kind)}
+
+    def call(i):
+        return is_positive_semidefinite(tq(i["A"]), **kw)
+
+    def oracle(i):
+        return psd_band(i["A"], *(tol or (RTOL, ATOL)))
+    return Obligation("is_positive_semidefinite.hermitian_band_and_sign_of_eigvalsh_kernel", cfg, build, call, oracle, post=band_post,
+                      neg=band_neg, tv=False, max_paths=64)
+
+
+def exact_herm(A):
+    A = O(A)
+    if A.shape[0] != A.shape[1]:
+        return False
+    cs = []
+    for r in range(A.shape[0]):
+        for c in range(A.shape[1]):
+            x, y = A[r, c], A[c, r].conjugate()
+            cs.append(lift(x).eq(y) if isinstance(x, Sym) or isinstance(y, Sym) else x == y)
+    return And(*cs)
+
+
+def ob_pd(shape, kind):
+    cfg = {"shape": list(shape), "entries": kind}
+
+    def build(b):
+        return {"A": b.array("A", shape, kind)}
+
+    def call(i):
+        return is_positive_definite(tq(i["A"]))
+
+    def oracle(i):
+        if shape[0] != shape[1]:
+            return False
+        return sb(exact_herm(i["A"])) & sb(chol_ok(tq(i["A"])))
+    return Obligation("is_positive_definite.exactly_hermitian_and_cholesky_kernel_succeeds", cfg, build, call, oracle, post=bool_post,
+                      neg=bool_neg, tv=False)
+
+
+def ob_density(n, kind):
+    cfg = {"n": n, "entries": kind}
+
+    def build(b):
+        return {"A": b.array("A", (n, n), kind)}
+
+    def call(i):
+        return is_density(tq(i["A"]))
+
+    def oracle(i):
+        pi, po = psd_band(i["A"])
+        ti, to = band([([tr_(i["A"])], [1])])
+        return And(pi, ti), Or(po, to)
+    return Obligation("is_density.psd_band_and_unit_trace", cfg, build, call, oracle, post=band_post, neg=band_neg, tv=False, max_paths=64)
+
+
+def max_eig(A):
+    w = eigvals_(A)
+    if has_sym(w):
+        return lexmax(w)
+    return np.max(np.asarray(w))
+
+
+def pure_band(A):
+    return band([([max_eig(A)], [1])])
+
+
+def ob_pure(n, kind, count=None, mixed=False):
+    """count None: a single matrix; otherwise a list of `count` matrices (every one must be pure)"""
+    cfg = {"n": n, "entries": kind, "list_of": count, "predicate": "is_mixed" if mixed else "is_pure"}
+
+    def build(b):
+        return {"S": [b.array(f"S{k}", (n, n), kind) for k in range(count or 1)]}
+
+    def call(i):
+        arg = tq(i["S"][0]) if count is None else [tq(x) for x in i["S"]]
+        return is_mixed(arg) if mixed else is_pure(arg)
+
+    def oracle(i):
+        bs = [pure_band(x) for x in i["S"]]
+        ins, outs = And(*[x[0] for x in bs]), Or(*[x[1] for x in bs])
+        return (outs, ins) if mixed else (ins, outs)
+    return Obligation(("is_mixed" if mixed else "is_pure") + ".largest_eigenvalue_of_eig_kernel_is_one", cfg, build, call, oracle,
+                      post=band_post, neg=band_neg, tv=False, max_paths=64)
+
+
+def ob_ensemble(m, n, kind):
+    cfg = {"states": m, "n": n, "entries": kind}
+
+    def build(b):
+        return {"S": [b.array(f"S{k}", (n, n), kind) for k in range(m)]}
+
+    def call(i):
+        return is_ensemble([tq(x) for x in i["S"]])
+
+    def oracle(i):
+        bs = [psd_band(x) for x in i["S"]]
+        tot = 0
+        for x in i["S"]:
+            tot = tot + tr_(x)
+        ti, to = band([([tot], [1])])
+        return And(ti, *[x[0] for x in bs]), Or(to, *[x[1] for x in bs])
+    return Obligation("is_ensemble.every_state_psd_band_and_traces_sum_to_one", cfg, build, call, oracle, post=band_post, neg=band_neg,
+                      tv=False, max_paths=256)
+
+
+def ob_nonneg_doubly(n):
+    cfg = {"n": n, "mat_type": "doubly"}
+
+    def build(b):
+        return {"A": b.array("A", (n, n), "s")}
+
+    def call(i):
+        return is_nonnegative(tq(i["A"]), "doubly")
+
+    def oracle(i):
+        A = O(i["A"])
+        pi, po = psd_band(A)
+        return And(pi, *[v >= 0 for v in A.flat]), Or(po, *[v < 0 for v in A.flat])
+    return Obligation("is_nonnegative.doubly_is_entrywise_and_psd", cfg, build, call, oracle, post=band_post, neg=band_neg, tv=False,
+                      max_paths=2 ** (n * n + n + 1))
+
+
+def colstack(vs):
+    d, k = len(O(vs[0]).reshape(-1)), len(vs)
+    M = obj((d, k))
+    for j, v in enumerate(vs):
+        v = O(v).reshape(-1)
+        for r in range(d):
+            M[r, j] = v[r]
+    return M
+
+
+def ob_lin_indep(k, d, kind):
+    cfg = {"vectors": k, "dim": d, "entries": kind}
+
+    def build(b):
+        return {"V": [b.array(f"v{j}", (d,), kind) for j in range(k)]}
+
+    def call(i):
+        return is_linearly_independent([tq(v) for v in i["V"]])
+
+    def oracle(i):
+        r = rank_(colstack(i["V"]))
+        return (r == k)
+    return Obligation("is_linearly_independent.rank_kernel_of_column_stack_equals_count", cfg, build, call, oracle, post=bool_post,
+                      neg=bool_neg, tv=False)
+
+
+def ob_pseudo_hermitian(n, kind, sig_kind, tol=None, mshape=None):
+    mshape = mshape or (n, n)
+    cfg = {"n": n, "entries": kind, "signature_entries": sig_kind, "matrix_shape": list(mshape), "rtol": tol[0] if tol else RTOL,
+           "atol": tol[1] if tol else ATOL}
+    kw = {"rtol": tol[0], "atol": tol[1]} if tol else {}
+
+    def build(b):
+        return {"A": b.array("A", mshape, kind), "eta": b.array("eta", (n, n), sig_kind)}
+
+    def call(i):
+        return is_pseudo_hermitian(tq(i["A"]), tq(i["eta"]), **kw)
+
+    def sig_ok(i):
+        """(clearly fine, clearly bad): Hermitian band of the signature (default tolerances) and the rank kernel"""
+        hi, ho = band(d_hermitian(i["eta"]))
+        r = rank_(i["eta"])
+        return And(hi, r == n), Or(ho, Not(r == n))
+
+    def oracle(i):
+        if mshape != (n, n):
+            return (False, True)
+        inv = np.linalg.inv(tq(i["eta"]))
+        lhs = mm(mm(i["eta"], i["A"]), inv)
+        return band([(lhs, dag(i["A"]))], *(tol or (RTOL, ATOL)))
+
+    def post(res, exp, i):
+        good, bad = sig_ok(i)
+        return sb(band_post(res, exp, i)) & ~sb(bad)      # a verdict is returned only for an admissible signature
+
+    def exc_post(e, i):
+        good, bad = sig_ok(i)
+        return sb(isinstance(e, ValueError)) & ~sb(good)  # raising is right only if the signature is not (clearly) admissible
+    return Obligation("is_pseudo_hermitian.eta_A_inv_eta_against_A_dagger_and_signature_guard", cfg, build, call, oracle, post=post,
+                      neg=band_neg, exc_post=exc_post, tv=False, max_paths=64)
+
+
+def ob_has_same_dimension(shapes):
+    cfg = {"shapes": [list(s) for s in shapes]}
+
+    def dim(s):
+        return s[0] if len(s) == 1 else s[0] * s[1]
+
+    def build(b):
+        return {"X": [b.array(f"X{k}", s, "c") for k, s in enumerate(shapes)]}
+
+    def call(i):
+        return has_same_dimension([tq(x) for x in i["X"]])
+
+    def oracle(i):
+        return all(dim(s) == dim(shapes[0]) for s in shapes)
+
+    def exc_post(e, i):
+        return isinstance(e, ValueError) and len(shapes) == 0
+    return Obligation("has_same_dimension.lengths_or_element_counts_agree", cfg, build, call, oracle, post=bool_post, neg=bool_neg,
+                      exc_post=exc_post)
+
+
+def ob_spark(shape):
+    cfg = {"shape": list(shape)}
+    m, n = shape
+
+    def build(b):
+        return {"A": b.array("A", shape, "r")}
+
+    def call(i):
+        return spark(tq(i["A"]))
+
+    def oracle(i):
+        """smallest k such that some k columns are dependent (rank kernel of those columns < k; a zero column is dependent), else min(m,n)+1"""
+        A = O(i["A"])
+        cases, none_before = [], SymBool(True)
+        for k in range(1, min(m, n) + 1):
+            dep = []
+            for cols in itertools.combinations(range(n), k):
+                subm = obj((m, k))
+                for r in range(m):
+                    for j, c in enumerate(cols):
+                        subm[r, j] = A[r, c]
+                dep.append(sb(rank_(subm) < k))
+            if k == 1:
+                for c in range(n):
+                    dep.append(And(*[exact_zero(A[r, c]) for r in range(m)]))
+            anyd = Or(*dep)
+            cases.append((k, none_before & anyd))
+            none_before = none_before & ~anyd
+        cases.append((min(m, n) + 1, none_before))
+        return cases
+
+    def post(res, exp, i):
+        return And(*[sb(implies(c, int(res) == v)) for v, c in exp])
+
+    def neg(exp):
+        return [(v + 1, c) for v, c in exp]
+    return Obligation("spark.smallest_dependent_column_count_by_rank_kernel", cfg, build, call, oracle, post=post, neg=neg, tv=False,
+                      max_paths=2 ** (m * n) * 8 + 64, weight=5 if m * n > 4 else 1)
+
+
+def ite(c, a, b_):
+    """c ? a : b as a term"""
+    c = sb(c)
+    if c.const is not None:
+        return a if c.const else b_
+    f = lift(c)          # 1 / 0
+    return f * a + (1 - f) * b_
+
+
+def ob_kp_norm(shape, kind, k, p):
+    cfg = {"shape": list(shape), "entries": kind, "k": k, "p": p if p != np.inf else "inf"}
+
+    def build(b):
+        return {"A": b.array("A", shape, kind)}
+
+    def call(i):
+        return kp_norm(tq(i["A"]), k, p)
+
+    def oracle(i):
+        A = O(i["A"])
+        if k >= min(shape) and p == 2:   # documented shortcut: Frobenius norm
+            tot = 0
+            for v in A.flat:
+                tot = tot + abs2(v)
+            return np.sqrt(tot) if not isinstance(tot, Sym) else tot.sqrt()
+        s = np.linalg.svd(tq(A), compute_uv=False)
+        return np.linalg.norm(s[:k], ord=p)
+    return Obligation("kp_norm.p_norm_of_first_k_values_of_svd_kernel", cfg, build, call, oracle, tv=False)
+
+
+def ob_trace_norm(shape, kind):
+    cfg = {"shape": list(shape), "entries": kind}
+
+    def build(b):
+        return {"A": b.array("A", shape, kind)}
+
+    def call(i):
+        return trace_norm(tq(i["A"]))
+
+    def oracle(i):
+        A = O(i["A"])
+        mine = obj(A.shape)
+        for idx in np.ndindex(*A.shape):
+            mine[idx] = A[idx]
+        return np.linalg.norm(tq(mine), ord="nuc")
+    return Obligation("trace_norm.nuclear_norm_kernel_of_argument", cfg, build, call, oracle, tv=False)
+
+
+# ----------------------------------------------------------------------------------------------
+# helpers: vec / unvec / tensor / Gram / commutant / majorizes
+# ----------------------------------------------------------------------------------------------
+def my_vec(X):
+    X = O(X)
+    m, n = X.shape
+    out = obj((m * n, 1))
+    for c in range(n):
+        for r in range(m):
+            out[c * m + r, 0] = X[r, c]
+    return out
+
+
+def my_kron(A, B):
+    A, B = O(A), O(B)
+    if A.ndim == 1 and B.ndim == 1:
+        out = obj((A.shape[0] * B.shape[0],))
+        for a in range(A.shape[0]):
+            for c in range(B.shape[0]):
+                out[a * B.shape[0] + c] = A[a] * B[c]
+        return out
+    out = obj((A.shape[0] * B.shape[0], A.shape[1] * B.shape[1]))
+    for a in range(A.shape[0]):
+        for c in range(A.shape[1]):
+            for e in range(B.shape[0]):
+                for f in range(B.shape[1]):
+                    out[a * B.shape[0] + e, c * B.shape[1] + f] = A[a, c] * B[e, f]
+    return out
+
+
+def ob_vec(shape, kind):
+    cfg = {"shape": list(shape), "entries": kind}
+    m, n = shape
+
+    def build(b):
+        return {"X": b.array("X", shape, kind), "v": b.array("v", (m * n, 1), kind), "w": b.array("w", (m * n,), kind)}
+
+    def call(i):
+        X = tq(i["X"])
+        out = [vec(X), unvec(vec(X), [m, n]), vec(unvec(tq(i["v"]), [m, n])), vec(unvec(tq(i["w"]), (m, n)))]
+        if m == n:
+            out.append(unvec(vec(X)))
+        return out
+
+    def oracle(i):
+        X = O(i["X"])
+        out = [my_vec(X), X, O(i["v"]), O(i["w"]).reshape(-1, 1)]
+        if m == n:
+            out.append(X)
+        return out
+    return Obligation("vec_unvec.column_major_and_mutual_inverses", cfg, build, call, oracle)
+
+
+def ob_vec_axb(m, k, l, n, kind):
+    cfg = {"A": [m, k], "X": [k, l], "B": [l, n], "entries": kind}
+
+    def build(b):
+        return {"A": b.array("A", (m, k), kind), "X": b.array("X", (k, l), kind), "B": b.array("B", (l, n), kind)}
+
+    def call(i):
+        A, X, B = tq(i["A"]), tq(i["X"]), tq(i["B"])
+        return [vec(A @ X @ B), tensor(B.T, A) @ vec(X), unvec(tensor(B.T, A) @ vec(X), [m, n])]
+
+    def oracle(i):
+        rhs = mm(my_kron(tp(i["B"]), i["A"]), my_vec(i["X"]))
+        axb = mm(mm(i["A"], i["X"]), i["B"])
+        return [rhs, my_vec(axb), axb]
+    return Obligation("vec.vec_AXB_equals_Bt_kron_A_vec_X", cfg, build, call, oracle)
+
+
+def ob_tensor_assoc(shapes, kind):
+    cfg = {"shapes": [list(s) for s in shapes], "entries": kind}
+
+    def build(b):
+        return {"M": [b.array(f"M{k}", s, kind) for k, s in enumerate(shapes)]}
+
+    def call(i):
+        M = [tq(x) for x in i["M"]]
+        if len(M) == 2:
+            return [tensor(M[0], M[1]), tensor([M[0], M[1]]), tensor([M[0]])]
+        if len(M) == 3:
+            return [tensor(M[0], M[1], M[2]), tensor(tensor(M[0], M[1]), M[2]), tensor(M[0], tensor(M[1], M[2])), tensor([M[0], M[1], M[2]])]
+        return [tensor(*M), tensor(list(M)), tensor(tensor(M[0], M[1]), tensor(M[2], M[3]))]
+
+    def oracle(i):
+        M = i["M"]
+        r = M[0]
+        for x in M[1:]:
+            r = my_kron(r, x)
+        if len(M) == 2:
+            return [r, r, O(M[0])]
+        return [r] * (4 if len(M) == 3 else 3)
+    return Obligation("tensor.kronecker_entries_associativity_and_list_forms", cfg, build, call, oracle)
+
+
+def ob_tensor_power(shape, kind, n):
+    cfg = {"shape": list(shape), "entries": kind, "power": n}
+
+    def build(b):
+        return {"A": b.array("A", shape, kind)}
+
+    def call(i):
+        return tensor(tq(i["A"]), n)
+
+    def oracle(i):
+        if n == 0:
+            return np.array([[1]], dtype=object)
+        r = O(i["A"])
+        for _ in range(n - 1):
+            r = my_kron(r, i["A"])
+        return r
+    return Obligation("tensor.n_fold_power_equals_repeated_product", cfg, build, call, oracle)
+
+
+def ob_gram(k, d, kind, ket=False, ragged=False):
+    cfg = {"vectors": k, "dim": d, "entries": kind, "column_kets": ket, "ragged": ragged}
+
+    def build(b):
+        return {"V": [b.array(f"v{j}", (d + (1 if ragged and j == k - 1 else 0),), kind) for j in range(k)]}
+
+    def call(i):
+        vs = [tq(v).reshape(-1, 1) if ket else tq(v) for v in i["V"]]
+        return vectors_to_gram_matrix(vs)
+
+    def oracle(i):
+        return gram(i["V"])
+
+    def exc_post(e, i):
+        return isinstance(e, ValueError) and ragged
+    return Obligation("vectors_to_gram_matrix.entries_are_inner_products", cfg, build, call, oracle, exc_post=exc_post)
+
+
+def ob_gram_roundtrip(n, kind):
+    """G = M^dagger M + I is positive definite by construction; on the path where Cholesky succeeds (contract L L^dagger = G)
+    the Gram matrix of the returned vectors must be G again."""
+    cfg = {"n": n, "entries": kind, "gram": "M^dagger M + I"}
+
+    def build(b):
+        M = b.array("M", (n, n), kind)
+        G = mm(dag(M), M)
+        for k in range(n):
+            G[k, k] = G[k, k] + 1
+        return {"G": lifted(G)}
+
+    def call(i):
+        vs = vectors_from_gram_matrix(tq(i["G"]))
+        return vectors_to_gram_matrix([np.asarray(v) if not has_sym(v) else v for v in vs])
+
+    def oracle(i):
+        return O(i["G"])
+
+    def pre(i):
+        return [chol_ok(tq(i["G"]))]
+    return Obligation("vectors_from_gram_matrix.gram_of_returned_vectors_is_the_input", cfg, build, call, oracle, assume=pre,
+                      valid=mk_valid(pre), contracts=("cholesky",), tv=False)
+
+
+def ob_gram_nonsquare():
+    cfg = {"shape": [3, 2]}
+
+    def build(b):
+        return {"G": b.array("G", (3, 2), "c")}
+
+    def call(i):
+        return vectors_from_gram_matrix(tq(i["G"]))
+
+    def exc_post(e, i):
+        return isinstance(e, np.linalg.LinAlgError)
+    return Obligation("vectors_from_gram_matrix.non_square_rejected", cfg, build, call, lambda i: None, post=lambda r, e, i: False,
+                      exc_post=exc_post, neg_control=False, tv=False)
+
+
+def ob_commutant(dim, ngen, kind, k):
+    cfg = {"dim": dim, "generators": ngen, "entries": kind, "returned_columns": k, "single_matrix_form": ngen == 0}
+    g = max(ngen, 1)
+
+    def build(b):
+        return {"A": [b.array(f"A{j}", (dim, dim), kind) for j in range(g)]}
+
+    def call(i):
+        A = [tq(x) for x in i["A"]]
+        basis = commutant(A[0] if ngen == 0 else A)
+        out = []
+        for X in basis:
+            for a in A:
+                out.append(np.asarray(a) @ np.asarray(X) - np.asarray(X) @ np.asarray(a))
+        return [len(basis)] + out
+
+    def oracle(i):
+        n = None
+        return [k if has_sym(i["A"]) else n] + [np.zeros((dim, dim))] * (k * g)
+
+    def post(res, exp, i):
+        if exp[0] is None:      # numeric replay: the number of basis elements is whatever null_space returns
+            return all(np.allclose(np.asarray(r, dtype=complex), 0, atol=1e-7) for r in res[1:])
+        return eq(res, exp)
+    return Obligation("commutant.every_returned_matrix_commutes_with_every_generator", cfg, build, call, oracle, post=post,
+                      neg_control=False, tv=False, extra_patch={"toqito.matrix_props.commutant": {"null_space": null_space_contract(k)}})
+
+
+def topk(v, k):
+    """sum of the k largest entries = maximum over the k-subsets of the subset sum (no sorting)"""
+    v = list(v)
+    sums = []
+    for c in itertools.combinations(range(len(v)), k):
+        t = 0
+        for j in c:
+            t = t + v[j]
+        sums.append(t)
+    if has_sym(sums):
+        return symmax(sums)
+    return max(sums)
+
+
+def ob_majorizes(la, lb, as_list=False, margin=1e-6, B=1000):
+    cfg = {"len_a": la, "len_b": lb, "python_lists": as_list, "margin": margin, "norm_bound": B, "nonnegative_entries": la != lb}
+    n = max(la, lb)
+
+    def build(b):
+        return {"a": b.array("a", (la,), "r"), "b": b.array("b", (lb,), "r")}
+
+    def call(i):
+        a, c = tq(i["a"]), tq(i["b"])
+        if as_list:
+            a, c = list(a), list(c)
+        return majorizes(a, c)
+
+    def padded(i):
+        a, c = list(O(i["a"])), list(O(i["b"]))
+        return a + [0] * (n - la), c + [0] * (n - lb)
+
+    def oracle(i):
+        a, c = padded(i)
+        ge = [topk(a, k) >= topk(c, k) for k in range(1, n + 1)]
+        lt = [topk(a, k) < topk(c, k) - margin for k in range(1, n + 1)]
+        return And(*ge), Or(*lt)
+
+    def pre(i):
+        a, _ = padded(i)
+        tot = 0
+        for v in a:
+            tot = tot + v * v
+        nrm = tot.sqrt() if isinstance(tot, Sym) else np.sqrt(float(tot))
+        cs = [nrm <= B]
+        if la != lb:   # zero padding is only meaningful for non-negative vectors (probability / singular-value vectors)
+            cs += [v >= 0 for v in list(O(i["a"])) + list(O(i["b"]))]
+        return cs
+    return Obligation("majorizes.weak_majorisation_by_partial_sums_of_largest_entries", cfg, build, call, oracle, post=band_post,
+                      neg=band_neg, assume=pre, valid=mk_valid(pre), max_paths=4000, weight=30 if n >= 3 else 2, wall_cap_s=900)
 
 
 def obligations(tier):
@@ -1429,7 +2018,85 @@ def obligations(tier):
     obs.append(ob_mub(3, 2, "c", "exact_qubit_xyz", ket=True))
     obs.append(ob_mub(2, 2, "c", "not_a_basis_family"))
     obs.append(ob_mub(2, 2, "r", "not_a_basis_family"))
-    obs.append(ob_mub(2, 2, "c", "not_orthonormal_by_margin"))
+    # kernel based predicates
+    for n in [1, 2, 3] + ([4] if T else []):
+        for kind in ("h", "s", "c", "r"):
+            if n == 1 and kind in ("s",):
+                continue
+            obs.append(ob_psd((n, n), kind))
+            obs.append(ob_pd((n, n), kind))
+            if n <= 3:
+                obs.append(ob_density(n, kind))
+                obs.append(ob_pure(n, kind))
+                obs.append(ob_pure(n, kind, mixed=True))
+        obs.append(ob_psd((n, n), "h", tol=(1e-3, 1e-2)))
+        obs.append(ob_psd((n, n), "c", tol=(1e-3, 1e-2)))
+    for shape in [(2, 3), (3, 2)]:
+        obs.append(ob_psd(shape, "c"))
+        obs.append(ob_pd(shape, "c"))
+    for n in (2, 3):
+        for kind in ("h", "c"):
+            obs.append(ob_pure(n, kind, count=2))
+            obs.append(ob_ensemble(2, n, kind))
+        obs.append(ob_pure(n, "h", count=1))
+    obs.append(ob_ensemble(1, 2, "h"))
+    obs.append(ob_ensemble(3, 2, "h"))
+    if T:
+        obs.append(ob_ensemble(3, 3, "h"))
+    obs.append(ob_nonneg_doubly(1))
+    obs.append(ob_nonneg_doubly(2))
+    for k, d in [(1, 2), (2, 2), (2, 3), (3, 2), (3, 3), (1, 1)] + ([(4, 4), (3, 4)] if T else []):
+        for kind in ("r", "c"):
+            obs.append(ob_lin_indep(k, d, kind))
+    for n in [1, 2] + ([3] if T else []):
+        for kind in ("r", "c"):
+            for sk in (("h", "c") if n <= 2 else ("h",)):
+                obs.append(ob_pseudo_hermitian(n, kind, sk))
+        obs.append(ob_pseudo_hermitian(n, "c", "h", tol=(1e-3, 1e-2)))
+    obs.append(ob_pseudo_hermitian(2, "c", "h", mshape=(2, 3)))
+    obs.append(ob_pseudo_hermitian(2, "c", "h", mshape=(3, 3)))
+    for shapes in [[(2, 2), (2, 2)], [(2, 2), (3, 3)], [(3,), (3,), (3,)], [(2,), (3,)], [(2, 3), (3, 2)], [(4,), (2, 2)], []]:
+        obs.append(ob_has_same_dimension(shapes))
+    for shape in [(1, 1), (1, 2), (2, 1), (2, 2)] + ([(2, 3), (3, 2)] if T else []):
+        obs.append(ob_spark(shape))
+    for shape in [(2, 2), (2, 3), (3, 2)] + ([(3, 3)] if T else []):
+        for kind in ("r", "c"):
+            obs.append(ob_trace_norm(shape, kind))
+            for k, p in [(1, 1), (2, 1), (1, 2), (2, 2), (3, 2), (2, 3), (1, np.inf), (2, np.inf)]:
+                obs.append(ob_kp_norm(shape, kind, k, p))
+    # helpers
+    for shape in [(1, 1), (2, 2), (2, 3), (3, 2), (3, 3), (1, 3), (3, 1)] + ([(4, 4), (2, 4)] if T else []):
+        for kind in ("r", "c"):
+            obs.append(ob_vec(shape, kind))
+    for dims in [(2, 2, 2, 2), (2, 3, 2, 3), (3, 2, 3, 2), (1, 2, 3, 1), (2, 1, 2, 3), (3, 3, 3, 3)] + ([(2, 3, 4, 2), (4, 2, 2, 3)] if T else []):
+        for kind in ("r", "c"):
+            obs.append(ob_vec_axb(*dims, kind))
+    for shapes in [[(2, 2), (2, 2)], [(2, 3), (3, 2)], [(2,), (3,)], [(2, 2), (2, 2), (2, 2)], [(1, 2), (2, 1), (2, 2)], [(2, 3), (1, 2), (3, 1)],
+                   [(2,), (3,), (2,)], [(2, 2), (2, 1), (1, 2), (2, 2)]] + ([[(3, 3), (2, 2), (3, 3)], [(2, 2), (3, 2), (2, 3), (2, 2)]] if T else []):
+        for kind in ("r", "c"):
+            obs.append(ob_tensor_assoc(shapes, kind))
+    for shape, nmax in [((2, 2), 5), ((1, 2), 5), ((2, 1), 5), ((2,), 5), ((3, 3), 3), ((2, 3), 3)]:
+        for n in range(0, nmax + (2 if T and shape != (3, 3) else 1)):
+            if n == 0 and len(shape) == 1:
+                continue
+            for kind in ("r", "c"):
+                obs.append(ob_tensor_power(shape, kind, n))
+    for k, d in [(1, 2), (2, 2), (2, 3), (3, 2), (3, 3)] + ([(4, 3), (3, 4)] if T else []):
+        for kind in ("r", "c"):
+            obs.append(ob_gram(k, d, kind))
+    obs.append(ob_gram(2, 2, "c", ket=True))
+    obs.append(ob_gram(3, 2, "c", ket=True))
+    obs.append(ob_gram(2, 2, "c", ragged=True))
+    for n in [1, 2, 3] + ([4] if T else []):
+        for kind in ("r", "c"):
+            obs.append(ob_gram_roundtrip(n, kind))
+    obs.append(ob_gram_nonsquare())
+    for dim, ngen, k in [(2, 0, 2), (2, 1, 2), (2, 2, 1), (3, 0, 3), (3, 2, 1), (2, 3, 2)] + ([(3, 1, 5), (4, 0, 4), (4, 2, 2)] if T else []):
+        for kind in ("r", "c"):
+            obs.append(ob_commutant(dim, ngen, kind, k))
+    for la, lb, as_list in [(1, 1, False), (2, 2, False), (2, 2, True), (1, 2, False), (2, 1, False)] + \
+            ([(3, 3, False), (2, 3, False), (3, 2, True)] if T else []):
+        obs.append(ob_majorizes(la, lb, as_list))
     # invariances
     for pred, ts in INVARIANT.items():
         for t in ts:
